@@ -6,6 +6,7 @@ import (
 	"encoding/json"
 	"fmt"
 	"os"
+	"reflect"
 	"runtime/debug"
 	"sort"
 	"strings"
@@ -544,6 +545,22 @@ func c18Run(c *mon.Ctx) {
 			}
 			cl.Close()
 		}
+	}
+	// the client the library builds for the audit subsystem must be able to take the largest kernel datagram
+	// (16-byte header + 8970 bytes of payload) in one receive: its read buffer is inspected (the socket is only
+	// opened and closed, nothing is sent to the audit subsystem)
+	if ac, err := libaudit.NewAuditClient(nil); err == nil {
+		if nc, ok := ac.Netlink.(*libaudit.NetlinkClient); ok {
+			if v := reflect.ValueOf(nc).Elem().FieldByName("readBuf"); v.IsValid() && v.Kind() == reflect.Slice {
+				c.Add("audit_client_read_buffer_bytes", int64(v.Len()))
+				if v.Len() < 16+8970 {
+					c.Violation("audit-client-read-buffer", fmt.Sprintf("NewAuditClient gives its netlink client a %d-byte read buffer: a kernel datagram with the largest payload (16 + 8970 bytes) would be cut short by the receive", v.Len()), nil)
+				}
+			}
+		}
+		ac.Close()
+	} else {
+		c.Note("NewAuditClient unavailable here (" + err.Error() + "): the audit client's read buffer size was not inspected")
 	}
 	c18Sequences(c)
 	c18Spoof(c)
